@@ -12,6 +12,7 @@ pub mod c09;
 pub mod c10;
 pub mod c11;
 pub mod c12;
+pub mod c13;
 pub mod c18;
 pub mod c19;
 
@@ -33,6 +34,7 @@ pub fn all() -> Vec<Prop> {
         Prop { id: "C10", level: "exploration", run: c10::run },
         Prop { id: "C11", level: "fault_enumeration", run: c11::run },
         Prop { id: "C12", level: "exploration", run: c12::run },
+        Prop { id: "C13", level: "exploration", run: c13::run },
         Prop { id: "C18", level: "exploration", run: c18::run },
         Prop { id: "C19", level: "exploration", run: c19::run },
     ]
@@ -90,7 +92,8 @@ pub fn replay_file(path: &str, print: bool) -> i32 {
 /// For each open known finding of this property that names a replay file: re-run it and print the
 /// KNOWN-FINDING line while it still reproduces (a finding that stopped reproducing prints nothing;
 /// one that now fails differently is reported by the normal search).
-pub fn replay_known(prop: &Prop, _tier: Tier, _seed: u64) {
+pub fn replay_known(prop: &Prop, _tier: Tier, _seed: u64) -> Vec<String> {
+    let mut printed = Vec::new();
     let root = std::path::PathBuf::from(std::env::var("ZV_ROOT").unwrap_or_else(|_| "/verif".into()));
     for k in crate::engine::load_known(&root) {
         if k.property != prop.id {
@@ -101,6 +104,7 @@ pub fn replay_known(prop: &Prop, _tier: Tier, _seed: u64) {
         match judge_file(&p) {
             Ok((Verdict::Known(key, m), _)) if key == k.key => {
                 println!("KNOWN-FINDING: property={} key={} {} [stored replay {} still reproduces: {}]", prop.id, k.key, k.text, rp, m);
+                printed.push(k.key.clone());
             }
             Ok((Verdict::Pass, _)) => {
                 eprintln!("[{}] note: stored known-finding replay {} no longer reproduces", prop.id, rp);
@@ -117,6 +121,7 @@ pub fn replay_known(prop: &Prop, _tier: Tier, _seed: u64) {
             Err(e) => eprintln!("[{}] note: cannot replay {}: {e}", prop.id, rp),
         }
     }
+    printed
 }
 
 /// Regression tier: saved (shrunk) failing inputs of repaired findings are re-judged on every run;
